@@ -154,6 +154,12 @@ def run(chk, w):
         def on_edge(br, succ, u, facts):
             if u == NOTHING:
                 return u
+            if u[0] == "cell" and facts.get(u[1]) is not None:
+                # `seg->occupied = flag;` with the flag's value now known on this path (the walk forks where the flag is tested):
+                # decide here, before a later loop iteration reassigns the flag
+                if facts[u[1]] & 1:
+                    return NOTHING
+                u = ("yes", u[2])
             cnd = f.resolve(br["cond"]) if "cond" in br.d else None
             # 'len > 0' of the address list false  => nothing to clear
             for c2 in _icmps_in(f, br.d.get("cond")):
